@@ -195,7 +195,16 @@ class SimLoop(asyncio.BaseEventLoop):
         if net is None:
             msg = "no SimNet in this world"
             raise OSError(msg)
-        return net.create_datagram_endpoint(protocol_factory, local_addr, sock)
+        res = net.create_datagram_endpoint(protocol_factory, local_addr, sock)
+        # asyncio opens and binds the socket, then waits one loop iteration for connection_made() before it returns (and closes the
+        # transport again if the caller is cancelled meanwhile).  The window between "socket exists" and "caller knows" is real.
+        try:
+            for _ in range(1 + int(self.world.knobs.get("sock_open_yields", 0))):
+                await asyncio.sleep(0)
+        except BaseException:
+            res[0].close()
+            raise
+        return res
 
     # ---------------------------------------------------------------- errors
     def _on_exception(self, loop, context) -> None:  # noqa: ANN001
